@@ -7,5 +7,5 @@ def run(chk, replay=None):
         chk, "C43",
         mc=["PipeSafetyDrain.cfg"],
         live=["PipeLiveDrain.cfg"],
-        sims=[("SimDrain.cfg", 100, 300), ("SimMix.cfg", 50, 400)],
+        sims=[("SimDrain.cfg", 100, 300), ("SimMix.cfg", 50, 400), ("SimStop.cfg", 60, 300)],
         thorough_mc=["PipelineFixed.cfg"])
